@@ -91,7 +91,7 @@ def cxx_case(chk, i):
     from .. import build, gen_graph
     from ..core import run as sh, write
     rng = chk.rng("cxx", i)
-    g = gen_graph.generate(rng, lang="cxx")
+    g = gen_graph.generate_mi(rng) if rng.random() < 0.35 else gen_graph.generate(rng, lang="cxx")
     orders, _ = gen_graph.valid_orders(g, rng, 1)
     d = chk.dir("x%d" % (i % 32))
     text = gen_graph.render(g, orders[0], hoist=rng.random() < 0.5)
@@ -140,6 +140,34 @@ def cxx_case(chk, i):
                     return any(tail_padded(cn) for cn in names if re.search(r"_%s_" % re.escape(cn), o_ + "_"))
                 return tail_padded(o_)
             sig = "c02.cxx-base-tail-padding-reuse" if owners and all(owner_ok(o_) for o_ in owners) else None
+            if sig is None:
+                # recorded: the Itanium ABI puts the primary base (the first DYNAMIC base) at offset 0 even when a non-dynamic base is
+                # declared before it; bindgen lays bases out in declaration order
+                def dynamic(cn, depth=0):
+                    c = g.by_name(cn)
+                    return bool(c) and depth < 8 and (bool(c.attrs.get("virtual")) or any(dynamic(b_, depth + 1) for b_ in c.bases))
+                def reorder_tainted(cn, depth=0):
+                    c = g.by_name(cn)
+                    if c is None or depth > 8:
+                        return False
+                    if len(c.bases) >= 2 and not dynamic(c.bases[0]) and any(dynamic(b_) for b_ in c.bases[1:]):
+                        return True
+                    return any(reorder_tainted(x, depth + 1) for x in (set(c.needs_complete) | set(c.bases)) if x != cn)
+                if owners and all((not o_.startswith("template specialization: ")) and (reorder_tainted(o_) or tail_padded(o_)) for o_ in owners) \
+                        and any(reorder_tainted(o_) for o_ in owners):
+                    sig = "c02.cxx-primary-base-not-first"
+            if sig is None and oname == "explicit-padding":
+                # recorded: --explicit-padding on empty C++ classes (`_address` byte + a padding byte) and inside class templates (padding computed
+                # for one instantiation is baked into the generic struct); everything that holds such a type by value inherits the wrong size
+                def ep_tainted(cn, depth=0):
+                    c = g.by_name(cn)
+                    if c is None or depth > 8:
+                        return False
+                    if c.kind == "template" or not [m_ for m_ in c.members if "(" not in m_ and not m_.startswith(("virtual", "~"))]:
+                        return True
+                    return any(ep_tainted(x, depth + 1) for x in (set(c.needs_complete) | set(c.bases)) if x != cn)
+                if owners and all(o_.startswith("template specialization: ") or ep_tainted(o_) for o_ in owners):
+                    sig = "c02.explicit-padding-empty-class-or-template"
             out.append(Verdict(VIOLATED, cname, "layout assertions (clang's numbers) fail to evaluate against the Rust layout: %s" % failing[:8], files=files, obs=obs, signature=sig))
         elif rcr != 0:
             out.append(Verdict(HELD, cname, obs=dict(obs, cxx_compile_errors_deferred_to_C01=1)))
